@@ -1092,6 +1092,8 @@ def run_handshake(ctx, p, i, kl, dh, child_dh=None, proto=3, rekey_ike=True):
 
 
 def correspond(ctx):
+    import warnings
+    warnings.simplefilter('ignore')    # cryptography's FFDH deprecation notices
     fails = []
     raw = gen_cases(ctx)
     cases = []
